@@ -310,6 +310,26 @@ def iso_time(s):
     return v if valid7(v) else None
 
 
+POS_TIME_RE = re.compile(r"^(\d{2})(?::?(\d{2})(?::?(\d{2})(?:[.,](\d+))?)?)?(?:Z|z|[+-]\d{2}(?::?\d{2}(?::?\d{2}(?:\.\d+)?)?)?)?$")
+
+
+def iso_positional(s):
+    """ISO reading with ANY single character between the 10-character date and the time (datetime.fromisoformat)"""
+    if not isinstance(s, str) or not s.isascii() or len(s) < 12 or not re.fullmatch(r"\d{4}-\d{2}-\d{2}", s[:10]):
+        return None
+    m = POS_TIME_RE.fullmatch(s[11:])
+    if not m:
+        return None
+    g = m.groups()
+    v = [int(s[:4]), int(s[5:7]), int(s[8:10])] + [int(x) if x is not None else 0 for x in g[:3]]
+    v.append(int((g[3] or "0")[:6].ljust(6, "0")))
+    return v if valid7(v) else None
+
+
+def iso_readings(s):
+    return [r for r in (loose_time(s), iso_time(s), iso_positional(s)) if r is not None]
+
+
 def valid7(v):
     y, mo, d, h, mi, s, us = v
     if not (1 <= y <= 9999 and 1 <= mo <= 12 and h < 24 and mi < 60 and s < 60 and us < 10 ** 6):
@@ -357,7 +377,7 @@ def judge_document(value):
                 return ("bad", "time-type", None)
             s = strict_time(t)
             if s is None:
-                s = loose_time(t) or iso_time(t)
+                s = (iso_readings(t) or [None])[0]
                 if s is None:
                     return ("bad", "time-text", None)
                 if status == "good":
@@ -526,7 +546,7 @@ def parse_case(ck, batch, s):
     except Exception:      # noqa  (any exception ends in load_cache's warning branch)
         got = None
     want_strict = strict_time(s)
-    readings = [r for r in (loose_time(s), iso_time(s)) if r is not None]
+    readings = iso_readings(s)
     # oracle: a canonical text must be read as itself; any other text may be rejected or accepted, but an accepted text
     # must get a value consistent with an ISO reading of it (which parser typhon uses is not part of the property)
     if want_strict is not None and got != want_strict:
